@@ -254,6 +254,9 @@ def run(ctx):
                     # deterministic two-piece feeding: everything but the last few bytes, idle calls, then the tail
                     # (the tail of a Block - padding / Check - is consumed without producing output)
                     p["split_at"] = max(1, lay["filelen"] - [1, 3, 5, 9, 13][len(jobs) % 5])
+                if k % 3 == 2 or (k == 0 and len(jobs) % 2):
+                    # all input with LZMA_RUN first; LZMA_FINISH in a call of its own without new input, after a pause
+                    p["lateact"] = 1
                 if k % 3 == 1:
                     # re-initialise the same handle without lzma_end() after a few calls, then decode from the start
                     p["reinit_after"] = ctx.rng.randint(1, 6)
